@@ -158,6 +158,7 @@ type State struct {
 	HB          map[hbLoc]*hbInfo
 	SyncVC      map[string][]int
 	ReportRaces bool
+	ReportHeapRaces bool
 	GBase       int
 	SchedVars   int
 	PreemptTerm *smt.Term
